@@ -23,7 +23,7 @@ class Leaf:
                 n = item[2]; vals_ = item[3] if len(item) > 3 else None
                 o, vals = w.arr(name, 'i32', n, vals_)
                 self.objs[name] = (o, n, 'i32'); self.v[name] = vals; self.nargs.append(('ptr', (o, 0)))
-            elif kind in ('f64', 'i32'):
+            elif kind in ('f64', 'i32', 'u8'):
                 if len(item) > 2: val = item[2]
                 else:
                     val = w.fresh(kind, name)
